@@ -858,7 +858,7 @@ func (e *Exec) sxCall(env *SpecEnv, n *ast.CallExpr) SVal {
 		e.bufferMaps()
 		b := e.mat(env, e.sx(env, n.Args[0]))
 		i := e.mat(env, e.sx(env, n.Args[1]))
-		return SVal{T: sel(sel(e.hget(env.heap(), "GB_bufdata"), b), fmt.Sprintf("(+ %s %s)", sel(e.hget(env.heap(), "GB_bufrd"), b), i)), Typ: types.Typ[types.Byte]}
+		return SVal{T: e.at(types.Typ[types.Byte], sel(e.hget(env.heap(), "GB_bufdata"), b), sel(e.hget(env.heap(), "GB_bufrd"), b), i), Typ: types.Typ[types.Byte]}
 	case "sumInts":
 		// sum of an []int: uninterpreted sum(array, off, len) with the usual unfolding lemma-axioms
 		v := e.sx(env, n.Args[0])
